@@ -146,7 +146,7 @@ func cmdCheck(repo, root string, args []string) int {
 	seed := 0
 	fmt.Sscanf(os.Getenv("VERIF_SEED"), "%d", &seed)
 	t0 := time.Now()
-	timeout := 10 * time.Second
+	timeout := 20 * time.Second
 	if tier == "thorough" {
 		timeout = 60 * time.Second
 	}
